@@ -1,6 +1,7 @@
 package main
 
 import (
+	"go/types"
 	"go/token"
 
 	"golang.org/x/tools/go/ssa"
@@ -18,6 +19,51 @@ const hotPkg = "pkg/hotreload"
 const hotPath = modPath + "/pkg/hotreload"
 
 func runC19(c *Ctx) {
+	c.rule("C19-R7", "MPT: in the file-watch loop of `glyph dev`, every write/create event of the watched file (re)arms a reload that runs after the event: from the event test's accepting edge every way back to the loop head passes time.AfterFunc / Timer.Reset. An event that is absorbed because a reload is 'already pending' can belong to an edit saved after that reload read the file - it would never take effect")
+	if wf := c.mustFn("C19-R7", glyphCmd, "hotReloadManager.watchForChanges"); wf != nil {
+		n := 0
+		for _, b := range wf.Blocks {
+			iff := ifOf(b)
+			if iff == nil || !derivesFrom(iff.Cond, func(v ssa.Value) bool {
+				switch x := v.(type) {
+				case *ssa.Field:
+					return x.X.Type().Underlying().(*types.Struct).Field(x.Field).Name() == "Op"
+				case *ssa.FieldAddr:
+					return x.X.Type().Underlying().(*types.Pointer).Elem().Underlying().(*types.Struct).Field(x.Field).Name() == "Op"
+				}
+				return false
+			}) {
+				continue
+			}
+			bo, ok := iff.Cond.(*ssa.BinOp)
+			if !ok {
+				continue
+			}
+			acc := 0 // `op & mask != 0` accepts on the true edge, `== 0` on the false edge
+			if bo.Op == token.EQL {
+				acc = 1
+			}
+			n++
+			var head *ssa.BasicBlock
+			for _, lp := range naturalLoops(wf) {
+				if lp.body[b] && (head == nil || len(lp.body) > 0) {
+					head = lp.head
+				}
+			}
+			if head == nil {
+				c.undecided("C19-R7: the event test is not inside a loop")
+				continue
+			}
+			q := &pathQuery{fn: wf, target: func(x ssa.Instruction) bool { return x.Block() == head }, stop: func(x ssa.Instruction) bool {
+				return isCallTo(x, "time.AfterFunc", "time.Timer.Reset", "time.NewTimer")
+			}}
+			hit, path := q.from(b.Succs[acc], 0)
+			c.ob("C19-R7", fnKey(wf)+"#every-change-event-schedules-a-reload-"+itoa(n), iff.Pos(), hit == nil, "a write/create event of the watched file can return to the event loop without (re)arming the reload timer: the edit it belongs to is served only if some later event happens to trigger a reload", c.blockPath(path)...)
+		}
+		if n == 0 {
+			c.undecided("C19-R7: no test of the fsnotify event's Op found in watchForChanges")
+		}
+	}
 	c.rule("C19-R6", "PAIR: every Lock/RLock in cmd/glyph and pkg/hotreload is released on every path to a return: a failed reload cannot leave the manager's mutex held and block all later reloads")
 	c.Sites["C19-R6#acquire-sites"] = lockReleaseAudit(c, "C19-R6", []string{glyphCmd, "pkg/hotreload"})
 	c.floor("C19-R6", 6)
@@ -107,14 +153,18 @@ func runC19(c *Ctx) {
 				}
 				// the event literal's Success field is not set to true
 				okFalse := true
-				derivesFrom(cl.Call.Args[1], func(v ssa.Value) bool {
+				sawSuccessField := false
+				visitF := func(v ssa.Value) bool {
 					if al, ok := v.(*ssa.Alloc); ok {
 						for _, r := range refs(al) {
 							if fa, ok := r.(*ssa.FieldAddr); ok {
 								if _, f, _ := fieldOf(fa); f == "Success" {
 									for _, rr := range refs(fa) {
-										if st, ok := rr.(*ssa.Store); ok && !isConstBool(st.Val, false) {
-											okFalse = false
+										if st, ok := rr.(*ssa.Store); ok {
+											sawSuccessField = true
+											if !isConstBool(st.Val, false) {
+												okFalse = false
+											}
 										}
 									}
 								}
@@ -122,7 +172,12 @@ func runC19(c *Ctx) {
 						}
 					}
 					return false
-				})
+				}
+				if u, ok := cl.Call.Args[1].(*ssa.UnOp); ok {
+					visitF(u.X)
+				}
+				derivesFrom(cl.Call.Args[1], visitF)
+				_ = sawSuccessField // an event literal that omits Success is a failure event (zero value)
 				return okFalse
 			}
 			for _, er := range extractOf(compile, 1) {
@@ -147,6 +202,70 @@ func runC19(c *Ctx) {
 				}
 			}
 			c.ob("C19-R2", hotPkg+".ReloadManager.handleChanges#reload-installs-compile-result", reload.Pos(), okArg, "server.Reload is given something other than the bytecode just compiled")
+			// success is reported only for a program the server accepted: a notifyReload whose event has Success set to
+			// true is reachable, when a server and a program exist, only through the err==nil edge of server.Reload
+			notifiesSuccess := func(x ssa.Instruction) bool {
+				cl, ok := x.(*ssa.Call)
+				if !ok || callName(cl) != hotPath+".ReloadManager.notifyReload" {
+					return false
+				}
+				succ := false
+				visit := func(v ssa.Value) bool {
+					if al, ok := v.(*ssa.Alloc); ok {
+						for _, r := range refs(al) {
+							if fa, ok := r.(*ssa.FieldAddr); ok {
+								if _, f, _ := fieldOf(fa); f == "Success" {
+									for _, rr := range refs(fa) {
+										if st, ok := rr.(*ssa.Store); ok && isConstBool(st.Val, true) {
+											succ = true
+										}
+									}
+								}
+							}
+						}
+					}
+					return false
+				}
+				if u, ok := cl.Call.Args[1].(*ssa.UnOp); ok {
+					visit(u.X)
+				}
+				derivesFrom(cl.Call.Args[1], visit)
+				return succ
+			}
+			nSucc := 0
+			eachInstr(hc, func(_ *ssa.BasicBlock, _ int, ins ssa.Instruction) {
+				if !notifiesSuccess(ins) {
+					return
+				}
+				nSucc++
+				q := &pathQuery{fn: hc, target: func(x ssa.Instruction) bool { return x == ins }, cutEdge: func(b *ssa.BasicBlock, si int) bool {
+					if nilOnEdge(b, si, reload) {
+						return true
+					}
+					// no server attached / nothing compiled: there is nothing to hand over
+					iff := ifOf(b)
+					if iff == nil {
+						return false
+					}
+					for _, f := range eqFacts(iff.Cond, si == 0) {
+						for _, pr := range [][2]ssa.Value{{f.x, f.y}, {f.y, f.x}} {
+							if isNilConst(pr[1]) && (loadedFromField(pr[0], "ReloadManager", "server") || derivesFrom(pr[0], func(v ssa.Value) bool {
+								for _, bc := range extractOf(compile, 0) {
+									if v == bc {
+										return true
+									}
+								}
+								return false
+							})) {
+								return true
+							}
+						}
+					}
+					return false
+				}}
+				hit, path := q.fromEntry()
+				c.ob("C19-R2", hotPkg+".ReloadManager.handleChanges#success-reported-only-after-server-accepted-"+itoa(nSucc), ins.Pos(), hit == nil, "a reload is reported as successful (and the function returns) on a path on which the compiled program was not handed to the server, or Reload did not succeed: a later valid edit is dropped while the manager claims it took effect", c.blockPath(path)...)
+			})
 			// SetState only after Reload succeeded
 			eachInstr(hc, func(_ *ssa.BasicBlock, _ int, ins ssa.Instruction) {
 				if !isInvoke("SetState")(ins) {
